@@ -60,6 +60,14 @@ def locate(fn: ast.AST, locator) -> ast.AST:
         if len(hits) <= n:
             raise Unsupported(f"assignment #{n} to {var} not found")
         return hits[n].value
+    if kind == "assign_tuple_elt":
+        var, idx = locator[1], locator[2]
+        hits = [n for n in ast.walk(fn) if isinstance(n, ast.Assign) and len(n.targets) == 1 and isinstance(n.targets[0], ast.Name)
+                and n.targets[0].id == var and isinstance(n.value, ast.Tuple)]
+        hits.sort(key=lambda x: (x.lineno, x.col_offset))
+        if not hits or len(hits[0].value.elts) <= idx:
+            raise Unsupported(f"tuple assignment to {var} not found")
+        return hits[0].value.elts[idx]
     if kind == "if_test":
         hits = [n for n in ast.walk(fn) if isinstance(n, (ast.If, ast.While, ast.IfExp))]
         hits.sort(key=lambda x: (x.lineno, x.col_offset))
@@ -318,6 +326,38 @@ KERNELS = [
          params="(hasEx : Prop) (k1 k2 a b : Nat)", obl="(hasEx : Prop) (k1 k2 a b : Nat)", call="hasEx k1 k2 a b",
          model="(¬ hasEx ∨ Cache.Pos.lt ⟨a, b⟩ ⟨k1, k2⟩)", imports=["Model.Cache"], unfold=["Cache.Pos.lt"],
          tactic="simp only []; by_cases h : hasEx <;> simp only [h, not_true_eq_false, not_false_eq_true, false_or, true_or] <;> omega"),
+    # _rpc/_bind.py: alignment of the secondary address / version list
+    dict(name="BindAckPackPad", props=["C12"], file="_rpc/_bind.py", func="BindAck.pack", loc=("assign", "padding"), typ="Int",
+         subst={"sec_addr_len": "n"}, params="(n : Int)", obl="(n : Nat)", call="(n : Int)", model="Py.negMod (2 + n) 4", imports=["Model.Py"], unfold=["Py.negMod"]),
+    dict(name="BindAckUnpackPad", props=["C12"], file="_rpc/_bind.py", func="BindAck._unpack", loc=("assign", "padding"), typ="Int",
+         subst={"sec_addr_len": "n"}, params="(n : Int)", obl="(n : Nat)", call="(n : Int)", model="Py.negMod (2 + n) 4", imports=["Model.Py"], unfold=["Py.negMod"]),
+    dict(name="BindNakPackPad", props=["C12"], file="_rpc/_bind.py", func="BindNak.pack", loc=("assign", "padding"), typ="Int",
+         subst={"len(b_versions)": "n"}, params="(n : Int)", obl="(n : Nat)", call="(n : Int)", model="Py.negMod (2 + n) 4", imports=["Model.Py"], unfold=["Py.negMod"]),
+    # _epm.py: NDR64 tower padding on all four sides
+    dict(name="EptMapPackPad", props=["C12", "C18"], file="_epm.py", func="EptMap.pack", loc=("assign", "tower_padding"), typ="Int",
+         subst={"len(b_tower)": "n"}, params="(n : Int)", obl="(n : Nat)", call="(n : Int)", model="Py.negMod (n + 4) 8", imports=["Model.Py"], unfold=["Py.negMod"]),
+    dict(name="EptMapUnpackPad", props=["C12", "C18"], file="_epm.py", func="EptMap.unpack", loc=("assign", "padding"), typ="Int",
+         subst={"tower_length": "n"}, params="(n : Int)", obl="(n : Nat)", call="(n : Int)", model="Py.negMod (n + 4) 8", imports=["Model.Py"], unfold=["Py.negMod"]),
+    dict(name="EptResPackPad", props=["C12", "C18"], file="_epm.py", func="EptMapResult.pack", loc=("assign", "padding"), typ="Int",
+         subst={"len(b_t)": "n"}, params="(n : Int)", obl="(n : Nat)", call="(n : Int)", model="Py.negMod (n + 4) 8", imports=["Model.Py"], unfold=["Py.negMod"]),
+    dict(name="EptResUnpackPad", props=["C12", "C18"], file="_epm.py", func="EptMapResult.unpack", loc=("assign", "padding"), typ="Int",
+         subst={"tower_length": "n"}, params="(n : Int)", obl="(n : Nat)", call="(n : Int)", model="Py.negMod (n + 4) 8", imports=["Model.Py"], unfold=["Py.negMod"]),
+    dict(name="EptResTowerGuard", props=["C18", "C12"], file="_epm.py", func="EptMapResult.unpack", kind="prop", loc=("if_containing", "len(view)"), typ="Nat",
+         subst={"len(view)": "n"}, params="(n : Nat)", obl="(n : Nat)", call="n", model="(n < 14)", imports=["Model.Py"], unfold=[]),
+    # _rpc/_client.py: request framing
+    dict(name="ReqVtPad", props=["C13"], file="_rpc/_client.py", func="RpcClient._create_request", loc=("assign", "padding"), typ="Int",
+         subst={"len(stub_data)": "n"}, params="(n : Int)", obl="(n : Nat)", call="(n : Int)", model="Py.negMod n 4", imports=["Model.Py"], unfold=["Py.negMod"]),
+    dict(name="ReqAuthPad", props=["C13", "C16"], file="_rpc/_client.py", func="RpcClient._create_request", loc=("assign", "pad_length"), typ="Int",
+         subst={"len(stub_data)": "n"}, params="(n : Int)", obl="(n : Nat)", call="(n : Int)", model="Py.negMod n 16", imports=["Model.Py"], unfold=["Py.negMod"]),
+    dict(name="RespTrailerOffset", props=["C13", "C16"], file="_rpc/_client.py", func="RpcClient._process_response", loc=("assign", "sec_trailer_offset"), typ="Int",
+         subst={"pdu_header.frag_len": "f", "pdu_header.auth_len": "a"}, params="(f a : Int)", obl="(f a : Nat)", call="(f : Int) (a : Int)",
+         model="((f : Int) - ((a : Int) + 8))", model_is_nat=False, imports=["Model.Py"], unfold=[]),
+    dict(name="VtGuard", props=["C12"], file="_rpc/_verification.py", func="VerificationTrailer.unpack", kind="prop", loc=("if_containing", "len(view)"), typ="Nat",
+         subst={"len(view)": "n"}, params="(n : Nat)", obl="(n : Nat)", call="n", model="(n < 4)", imports=["Model.Py"], unfold=[]),
+    dict(name="ReqEncEnd", props=["C13", "C16"], file="_rpc/_client.py", func="RpcClient._create_request", loc=("assign_tuple_elt", "encrypt_offsets", 1), typ="Nat",
+         subst={"len(stub_data)": "n"}, params="(n : Nat)", obl="(n : Nat)", call="n", model="24 + n", imports=["Model.Py"], unfold=[]),
+    dict(name="ReqEncStart", props=["C13", "C16"], file="_rpc/_client.py", func="RpcClient._create_request", loc=("assign_tuple_elt", "encrypt_offsets", 0), typ="Nat",
+         subst={}, params="(n : Nat)", obl="(n : Nat)", call="n", model="24", imports=["Model.Py"], unfold=[]),
     dict(name="TlvLowTag", props=["C07", "C06"], file="_asn1.py", func="_pack_asn1", kind="prop",
          loc=("if_containing", "tag_number"), typ="Nat", subst={"tag_number": "n"},
          params="(n : Nat)", obl="(n : Nat)", call="n", model="(n < 31)", imports=["Model.Asn1"],
